@@ -15,6 +15,7 @@ import logging
 from .. import ashref as R
 from .. import vloop, wire
 from ..runner import Acc
+from .. import logmode
 from ..contracts import install_status_contract
 
 PROPERTY = "C10"
@@ -25,7 +26,9 @@ RULE = (
     "event E[i] of the scripted workload, every i) x (offset: delivered before E[i] arrives / after it "
     "arrived) - plus, for every crash point at which a host timer (ACK, command, reset timeout) is "
     "pending in a silent-NCP variant, the failure delivered in the very loop iteration in which that "
-    "timer expires, ordered before it.  Non-trivial = the failure was injected before the deliberate "
+    "timer expires, ordered before it; plus the post-registration crash points again after a history in "
+    "which the NCP failed once (ERROR / power-on RSTACK) before any application was attached and was "
+    "started up again.  Non-trivial = the failure was injected before the deliberate "
     "close; distinct = distinct (version, kind, crash point, offset)."
 )
 ASSUMPTIONS = [
@@ -38,7 +41,8 @@ ASSUMPTIONS = [
 ]
 REACH = {t: ["kind_error", "kind_rstack", "kind_silent", "kind_lost", "kind_eof", "phase_bringup", "phase_idle",
              "phase_inflight", "phase_reset", "phase_after_close", "reset_request_observed",
-             "new_command_refused_at_once", "timer_aligned", "deliberate_close_silent", "queued_calls_released"]
+             "new_command_refused_at_once", "timer_aligned", "deliberate_close_silent", "queued_calls_released",
+             "failure_after_an_earlier_unattended_failure"]
          for t in ("quick", "thorough")}
 SHARD_TIMEOUT = {"quick": 900, "thorough": 3600}
 
@@ -153,6 +157,18 @@ def run_case(V, case):
             ez = ws.new_ezsp()
             state["ez"] = ez
             await call("connect", lambda: ez.connect(use_thread=False))
+            if case.get("prefail"):
+                # history: opening the port made the NCP reboot and say so (power-on RSTACK), or it
+                # reported an ERROR, while no application was attached yet - nobody's business; the
+                # host then starts it up normally
+                phase[0] = "prefail"
+                trace.append(("prefail", clock(), case["prefail"]))
+                if case["prefail"] == "error":
+                    ws.send_error(0x51)
+                else:
+                    ws.spontaneous_reset(0x02)
+                await asyncio.sleep(0.3)
+                phase[0] = "bringup"
             await call("startup_reset", ez.startup_reset)
             ez.add_callback(app_cb)
             state["registered"] = True
@@ -220,7 +236,9 @@ def judge(V, case, trace, info):
     if info.get("closed_at_failure") is False and any(e[0] == "conn_lost_ignored" for e in trace):
         info["closed_at_failure"] = True
     ph = info["phase_at_failure"]
-    facts.add({"bringup": "phase_bringup", "idle": "phase_idle", "idle2": "phase_idle", "inflight": "phase_inflight",
+    if case.get("prefail") and info["registered_at_failure"]:
+        facts.add("failure_after_an_earlier_unattended_failure")
+    facts.add({"prefail": "phase_bringup", "bringup": "phase_bringup", "idle": "phase_idle", "idle2": "phase_idle", "inflight": "phase_inflight",
                "reset": "phase_reset", "after_reset": "phase_inflight", "closing": "phase_after_close",
                "after_close": "phase_after_close"}[ph])
     if info.get("aligned_to"):
@@ -317,7 +335,7 @@ def shards(tier, seed):
 
 
 def run_shard(desc) -> Acc:
-    logging.disable(logging.CRITICAL)
+    logmode.apply(desc)
     acc = Acc()
     install_status_contract(acc)
     V = desc["version"]
@@ -339,6 +357,19 @@ def run_shard(desc) -> Acc:
         for i in range(0, n + 1, 2 if desc["tier"] == "quick" else 1):
             for k in (0, 1):
                 cases.append({"kind": desc["kind"], "code": desc["code"], "at": i, "align_timer": k})
+    # the same crash points after a history in which the NCP had already failed once before any
+    # application was attached (state kept from that first failure must not mute the second)
+    for pf in ("rstack", "error"):
+        tr_pf, info_pf = run_case(V, {"kind": None, "prefail": pf})
+        acc.case()
+        for key, msg in judge(V, {"kind": None, "prefail": pf}, tr_pf, info_pf)[0]:
+            acc.violation(key, msg, {"version": V, "kind": None, "prefail": pf}, pretty(tr_pf)[:80])
+        n_pf = info_pf.get("n_frames", 0)
+        reg = next((e[1] for e in tr_pf if e[0] == "registered"), None)
+        first = sum(1 for e in tr_pf if e[0] == "line" and reg is not None and e[1] < reg)
+        stride = 2 if desc["tier"] == "thorough" else 5
+        for i in range(first, n_pf + 1, stride):
+            cases.append({"kind": desc["kind"], "code": desc["code"], "at": i, "offset": 0.0015, "prefail": pf})
     for case in cases:
         acc.case()
         trace, info = run_case(V, case)
@@ -349,7 +380,7 @@ def run_shard(desc) -> Acc:
         for f in facts:
             acc.hit(f)
         if info["t_fail"] is not None and not info.get("closed_at_failure"):
-            acc.nontrivial((V, case["kind"], case.get("code"), case["at"], case.get("offset"), case.get("align_timer")))
+            acc.nontrivial((V, case["kind"], case.get("code"), case["at"], case.get("offset"), case.get("align_timer"), case.get("prefail")))
         for e in trace:
             acc.ev(e[0])
         if len(acc.samples) < 1 and info["phase_at_failure"] == "inflight":
